@@ -258,6 +258,64 @@ theorem one_wrapper_for_all_counterexample :
     runAsOne (itemUnits [true, false, true] 1) [] = ([], false) := by
   constructor <;> rfl
 
+/-! ## 2c. The surplus kick-off of the second generation (unwrapped; finding D-C15-1) -/
+
+/-- if English auctions are activated the kick-off does all of its four effects -/
+theorem kickoff_complete_if_english_on (lot : Int) (s : Kick) :
+    surplusKickRaw lot true s =
+      ({ collector := s.collector - lot, parked := s.parked + lot, netFees := s.netFees - lot,
+         lockedVaults := s.lockedVaults + 1, auctions := s.auctions + 1, active := true }, none) := rfl
+
+/-- **D-C15-1 — the kick-off is not all-or-nothing and stops the loop** (two due entries, the first app without English
+auctions): the first entry's lot has left the collector and the record, no locked vault, no auction, the entry is not
+marked; the step reports failure; the second entry is never started (`2` would be the count had both been started). -/
+theorem kickoff_leaks_counterexample :
+    runUnwrappedLoop [surplusKickRaw 200000 false, surplusKickRaw 200000 true]
+        { collector := 11000000, parked := 0, netFees := 11000000, lockedVaults := 0, auctions := 0, active := false } =
+      ({ collector := 10800000, parked := 200000, netFees := 10800000, lockedVaults := 0, auctions := 0, active := false },
+       some Fail.err, 1) := rfl
+
+/-- … and because nothing marks the entry, **every block takes another lot** until the record falls below threshold + lot:
+for every number of blocks `n` during which the entry stays due the collector is `n` lots short, with no auction. -/
+theorem kickoff_repeats (threshold lot : Int) (n : Nat) (s : Kick) (hact : s.active = false)
+    (hdue : s.netFees - (n : Int) * lot ≥ threshold) (hlot : 0 ≤ lot) :
+    kickBlocks threshold lot n s =
+      { s with collector := s.collector - n * lot, parked := s.parked + n * lot, netFees := s.netFees - n * lot } := by
+  induction n generalizing s with
+  | zero => simp [kickBlocks]
+  | succ n ih =>
+    have hd : kickDue s threshold lot = true := by
+      simp only [kickDue, hact, Bool.not_false, Bool.true_and, decide_eq_true_eq]
+      have : ((n + 1 : Nat) : Int) * lot = n * lot + lot := by rw [Int.natCast_succ, Int.add_mul, Int.one_mul]
+      have h2 : 0 ≤ (n : Int) * lot := Int.mul_nonneg (Int.natCast_nonneg n) hlot
+      omega
+    simp only [kickBlocks, hd, if_true]
+    have hs1 : (surplusKickRaw lot false s).1 =
+        { s with collector := s.collector - lot, parked := s.parked + lot, netFees := s.netFees - lot } := rfl
+    rw [hs1, ih]
+    · have : ((n + 1 : Nat) : Int) * lot = n * lot + lot := by rw [Int.natCast_succ, Int.add_mul, Int.one_mul]
+      simp only [this]
+      congr 1 <;> omega
+    · exact hact
+    · have : ((n + 1 : Nat) : Int) * lot = n * lot + lot := by rw [Int.natCast_succ, Int.add_mul, Int.one_mul]
+      simp only
+      omega
+
+example : kickBlocks 10200000 200000 3 { collector := 11000000, parked := 0, netFees := 11000000, lockedVaults := 0, auctions := 0, active := false } =
+    { collector := 10400000, parked := 600000, netFees := 10400000, lockedVaults := 0, auctions := 0, active := false } := by
+  decide
+
+/-- the repair: the same step under the wrapper of `types/utils.go` leaves nothing behind, and (as a `runUnits` loop) the
+entry behind it is processed -/
+theorem kickoff_wrapped_is_atomic (lot : Int) (s : Kick) :
+    applyShaped Comdex.Gen.Hooks.wrapper (surplusKickRaw lot false) s = (s, false, false) :=
+  source_wrapper_atomic _ s _ .err rfl
+
+example :
+    (runUnits [(surplusKickRaw 200000 false).toExcept, (surplusKickRaw 200000 true).toExcept]
+        { collector := 11000000, parked := 0, netFees := 11000000, lockedVaults := 0, auctions := 0, active := false }) =
+      ({ collector := 10800000, parked := 200000, netFees := 10800000, lockedVaults := 1, auctions := 1, active := true }, [false, true]) := rfl
+
 /-! ## 3. The sweep prelude (`GetSliceStartEndForLiquidations`, `list[start:end]`) -/
 
 /-- **slice_in_bounds**: for a non-negative slice length the helper returns `0 ≤ start ≤ end ≤ sliceLen`, for every
@@ -543,15 +601,16 @@ theorem units_of_work_wrapped :
 nesting depth, the innermost loop statement enclosing the call (`""` = none: a whole-hook unit or a pass) and the loops
 written inside its closure. A wrapper moved out of (or into) a loop, or a loop over items moved into a closure, changes
 this list. -/
-theorem wrapper_sites_and_their_loops :
-    (units.map fun u => (u.blocker, u.inFn, u.nest, u.loopOver, u.innerLoops)) =
+def wrapperSites (repairedKickoff : Bool) : List (String × String × Nat × String × List String) :=
       [("liquidity.BeginBlocker", "BeginBlocker", 1, "range allApps", []),
        ("liquidity.EndBlocker", "EndBlocker", 1, "range allApps", []),
        ("liquidation.BeginBlocker", "LiquidateVaults", 1, "range newVaults", []),
        ("liquidation.BeginBlocker", "LiquidateBorrows", 1, "range newBorrowIDs", ["range pool.AssetData"]),
        ("liquidationsV2.BeginBlocker", "LiquidateVaults", 1, "range newVaults", []),
-       ("liquidationsV2.BeginBlocker", "LiquidateBorrows", 1, "range newBorrowIDs", []),
-       ("auction.BeginBlocker", "BeginBlocker", 1, "range auctionMapData", []),
+       ("liquidationsV2.BeginBlocker", "LiquidateBorrows", 1, "range newBorrowIDs", [])] ++
+      -- the repair of D-C15-1 (notes/C15.md): one more site, the surplus / debt kick-off per auction-mapping entry
+      (if repairedKickoff then [("liquidationsV2.BeginBlocker", "LiquidateForSurplusAndDebt", 1, "range auctionMapData", [])] else []) ++
+      [("auction.BeginBlocker", "BeginBlocker", 1, "range auctionMapData", []),
        ("auction.BeginBlocker", "BeginBlocker", 1, "range auctionMapData", []),
        ("auction.BeginBlocker", "RestartDutchAuctions", 1, "range dutchAuctions", []),
        ("auction.BeginBlocker", "RestartDutchLendAuctions", 1, "range dutchAuctions", []),
@@ -561,7 +620,12 @@ theorem wrapper_sites_and_their_loops :
        ("auctionsV2.BeginBlocker", "LimitOrderBid", 2, "range auctions", ["range biddingData"]),
        ("rewards.BeginBlocker", "BeginBlocker", 1, "", []),
        ("lend.BeginBlocker", "BeginBlocker", 1, "", []),
-       ("esm.BeginBlocker", "BeginBlocker", 1, "", ["range apps"])] := by decide
+       ("esm.BeginBlocker", "BeginBlocker", 1, "", ["range apps"])]
+
+def siteList : List (String × String × Nat × String × List String) :=
+  units.map fun u => (u.blocker, u.inFn, u.nest, u.loopOver, u.innerLoops)
+
+theorem wrapper_sites_and_their_loops : (siteList == wrapperSites false || siteList == wrapperSites true) = true := by decide
 
 /-! ### Error propagation inside the wrapped units (`errorSites`)
 
@@ -658,11 +722,12 @@ theorem d3_only_in_the_vault_sweeps :
     (unwrapped.filter fun e => conditionalD3.contains (key e)).length ≤ 2 := by decide
 
 set_option maxRecDepth 200000 in
-/-- **Pins**: exactly the twelve Begin/EndBlockers of the ten DeFi modules and exactly the seventeen wrapper sites;
+/-- **Pins**: exactly the twelve Begin/EndBlockers of the ten DeFi modules and exactly the seventeen wrapper sites (eighteen
+with the repair of D-C15-1, see `wrapper_sites_and_their_loops`);
 195 unwrapped + 205 wrapped entries on the pinned tree — stated as lower bounds because a repair of D3 legitimately
 removes two of them — and spot entries, so that an extractor that returns little or nothing fails here. -/
 theorem table_pins :
-    blockers.length = 12 ∧ units.length = 17 ∧ unwrapped.length ≥ 150 ∧ wrappedEntries.length ≥ 150 ∧
+    blockers.length = 12 ∧ (units.length = 17 ∨ units.length = 18) ∧ unwrapped.length ≥ 150 ∧ wrappedEntries.length ≥ 150 ∧
     entries.length ≥ 380 ∧ errorSites.length ≥ 120 ∧
     (sliceFacts.map fun f => (f.blocker, f.inFn, f.expr, f.listSrc)) =
       [("liquidation.BeginBlocker", "LiquidateVaults", "totalVaults[start:end]", "k.vault.GetVaults"),
